@@ -703,7 +703,6 @@ func synLong(r *RNG, n int) (string, string) {
 	}
 }
 
-
 // ---------------------------------------------------------------- scanner scripts (the exported scanner.Scanner API)
 
 var scanPreds = []func(rune) bool{
@@ -849,7 +848,6 @@ func synClass(res synResult, kinds []string) string {
 	}
 	return res.Outcome
 }
-
 
 func scanShape(ops []string) string {
 	var b strings.Builder
